@@ -57,7 +57,8 @@ func recsText(recs []string, noNL bool) string {
 }
 
 // runImpl: cwd is the harness's private temp dir.
-func runImpl(c *Case) (res implResult) {
+// prepareInputs puts the files and the stdin file of one case (one run) into the temp dir
+func prepareInputs(c *Case) (*os.File, error) {
 	want := map[string]string{}
 	for _, f := range c.Files {
 		if !strings.HasPrefix(f.Name, "./") {
@@ -73,20 +74,37 @@ func runImpl(c *Case) (res implResult) {
 			delete(onDisk, n)
 		case ok && (!had || old != txt):
 			if err := os.WriteFile(n, []byte(txt), 0o644); err != nil {
-				res.Err = "harness: " + err.Error()
-				return
+				return nil, err
 			}
 			onDisk[n] = txt
 		}
 	}
 	if txt := recsText(c.Stdin, c.NoNL); onDisk["stdin.txt"] != txt || txt == "" {
 		if err := os.WriteFile("stdin.txt", []byte(txt), 0o644); err != nil {
-			res.Err = "harness: " + err.Error()
-			return
+			return nil, err
 		}
 		onDisk["stdin.txt"] = txt
 	}
-	in, err := os.Open("stdin.txt")
+	return os.Open("stdin.txt")
+}
+
+func parseEvents(out []byte) []string {
+	var evs []string
+	for _, l := range strings.Split(strings.TrimSuffix(string(out), "\n"), "\n") {
+		if l == "" && len(out) == 0 {
+			continue
+		}
+		if strings.HasPrefix(l, "T,") {
+			evs = append(evs, l)
+		} else {
+			evs = append(evs, "P,"+hx.HexS(l))
+		}
+	}
+	return evs
+}
+
+func runImpl(c *Case) (res implResult) {
+	in, err := prepareInputs(c)
 	if err != nil {
 		res.Err = "harness: " + err.Error()
 		return
@@ -101,16 +119,7 @@ func runImpl(c *Case) (res implResult) {
 		res.Panic = fmt.Sprint(rr.Panic)
 		return
 	}
-	for _, l := range strings.Split(strings.TrimSuffix(string(rr.Out), "\n"), "\n") {
-		if l == "" && len(rr.Out) == 0 {
-			continue
-		}
-		if strings.HasPrefix(l, "T,") {
-			res.Events = append(res.Events, l)
-		} else {
-			res.Events = append(res.Events, "P,"+hx.HexS(l))
-		}
-	}
+	res.Events = parseEvents(rr.Out)
 	res.Status = rr.Status
 	if rr.Err != nil {
 		res.Err = rr.Err.Error()
@@ -161,6 +170,9 @@ func specLine(s specResult) string {
 func diffOracle(want, got []string, wantSt, gotSt int, wantErr, gotErr bool) string {
 	cols := []string{"", "tag", "NR counts the main-input records taken", "FNR restarts at each file", "FILENAME names the file being read",
 		"$0 is the record / getline var leaves $0 alone", "NF goes with $0", "getline result", "variables (operand assignments, getline var)"}
+	if len(want) != len(got) {
+		return "which rules run on which records (patterns, ranges, next, nextfile, exit)"
+	}
 	for i := 0; i < len(want) && i < len(got); i++ {
 		if want[i] == got[i] {
 			continue
@@ -338,7 +350,7 @@ func evaluate(c *Case, impl implResult, model string, rep *hx.Report) {
 func main() {
 	o := hx.ParseFlags()
 	rep := hx.NewReport("C11", o.Seed, o.Tier)
-	rep.Rule = "systematic: every operand kind alone/in pairs/between files; 6 getline sources x 6 targets x {BEGIN, rule, END, function, while} x 3 operand lists; range /S/,/E/ over all 341 record sequences of length <= 4 over {plain,S,E,S E}; next/nextfile/exit x 5 nesting shapes x {rule, BEGIN, END, pattern}; exit-status grid; ARGV/ARGC edits. random: scripts by family (operands, range, getline, control, argv, mixed, hostile) over 3 files of <= 4 records, stdin, 4 commands; distinct = distinct model request; non-trivial = the implementation produced at least one trace or print event"
+	rep.Rule = "systematic: every operand kind alone/in pairs/between files; 6 getline sources x 6 targets x {BEGIN, rule, END, function, while} x 3 operand lists; range /S/,/E/ over all 341 record sequences of length <= 4 over {plain,S,E,S E}; next/nextfile/exit x 5 nesting shapes x {rule, BEGIN, END, pattern}; exit-status grid; ARGV/ARGC edits. random: scripts by family (operands, range, getline, control, argv, mixed, hostile) over 3 files of <= 4 records, stdin, 4 commands; reused-interpreter histories: interp.New once, 2-3 Execute calls with none / ResetVars / ResetVars+ResetRand between (14 program shapes with one, two, three range rules, exit/nextfile/next/error while a range is open, getline bookkeeping, getline <file left open, ARGV/ARGC edits at run time, NR assigned) x 5 input sequences x 3 reset modes, plus random programs with fresh inputs per run), every run compared with the model's script_history and the fresh-run reference; distinct = distinct model request; non-trivial = the implementation produced at least one trace or print event"
 	outPath, _ := filepath.Abs(o.Out)
 	modelrun := o.ModelRun
 	if modelrun != "" {
@@ -412,6 +424,7 @@ func main() {
 			rep.Sample(map[string]any{"program": c.P.awk(), "args": c.Args, "impl": impls[i].line()})
 		}
 	}
+	runHistories(rep, o, r, modelrun)
 	runLong(rep, o.Tier)
 	rep.Write(outPath)
 }
@@ -432,6 +445,9 @@ func doReplay(path, modelrun string) int {
 	if err := json.Unmarshal(b, &doc); err != nil {
 		fmt.Println("replay:", err)
 		return 2
+	}
+	if hj, ok := doc.Failure.Detail["history_json"].(string); ok {
+		return replayHistory(hj, modelrun)
 	}
 	cj, _ := doc.Failure.Detail["case_json"].(string)
 	var c Case
